@@ -2,4 +2,6 @@ MODULES = [
     "contracts.c06_ids",
     "contracts.c03_validate",
     "contracts.c03_finite",
+    "contracts.gw_logic",
+    "contracts.c04_state",
 ]
